@@ -367,8 +367,9 @@ Proof.
     destruct (stream_header_spent (get_d w o0) false 0 Hsp) as (A & B & _); auto.
   - (* ODFrame *) unfold dctx_frame, dctx_frame_gen, d_spent. cbn [d_dict dctx_set_stage dctx_set_dict].
     destruct (stream_header_spent (get_d w o0) true 0 Hsp) as (A & B & _); auto.
-  - (* ODFx *) unfold dctx_fx, dctx_fx_gen, d_spent. cbn [d_dict dctx_set_stage dctx_set_dict].
-    destruct (stream_header_spent (get_d w o0) (d_format (get_d w o0) =? (if k =? 1 then 1 else 0)) (if k =? 4 then 1 else 0) Hsp) as (A & B & _); auto.
+  - (* ODFx *) unfold dctx_fx, dctx_fx_gen, d_spent. cbv zeta. destruct (_ && _ && _); cbn [d_dict dctx_set_stage dctx_set_dict].
+    + unfold dd_fx_pre, dd_stale_select. destruct Hsp as [Hu Hn]. rewrite dd_select_noset by exact Hn. split; assumption.
+    + destruct (stream_header_spent (get_d w o0) (d_format (get_d w o0) =? (if k =? 1 then 1 else 0)) (if k =? 4 then 1 else 0) Hsp) as (A & B & _); auto.
   - (* ODDec *) revert E. unfold dctx_dec_stream, dctx_dec_stream_gen.
     destruct (stream_header_spent (get_d w o0) (d_format (get_d w o0) =? 0) (frame_fid f) Hsp) as (A & B & _).
     destruct (dd_stream_header false (get_d w o0) (d_format (get_d w o0) =? 0) (frame_fid f)) as [x u]. cbn [fst] in A, B.
@@ -435,8 +436,9 @@ Proof.
     destruct (stream_header_holds _ k false 0 Hh) as (A & B & C & _); auto.
   - unfold dctx_frame, dctx_frame_gen, d_holds. cbn [d_dict dctx_set_stage dctx_set_dict].
     destruct (stream_header_holds _ k true 0 Hh) as (A & B & C & _); auto.
-  - unfold dctx_fx, dctx_fx_gen, d_holds. cbn [d_dict dctx_set_stage dctx_set_dict].
-    destruct (stream_header_holds _ k (d_format (get_d w o0) =? (if k0 =? 1 then 1 else 0)) (if k0 =? 4 then 1 else 0) Hh) as (A & B & C & _); auto.
+  - unfold dctx_fx, dctx_fx_gen, d_holds. cbv zeta. destruct (_ && _ && _); cbn [d_dict dctx_set_stage dctx_set_dict].
+    + unfold dd_fx_pre, dd_stale_select. destruct Hh as (Hu & Hk & Hn). rewrite dd_select_noset by exact Hn. repeat split; assumption.
+    + destruct (stream_header_holds _ k (d_format (get_d w o0) =? (if k0 =? 1 then 1 else 0)) (if k0 =? 4 then 1 else 0) Hh) as (A & B & C & _); auto.
   - revert E. unfold dctx_dec_stream, dctx_dec_stream_gen.
     destruct (stream_header_holds _ k (d_format (get_d w o0) =? 0) (frame_fid f) Hh) as (A & B & C & _).
     destruct (dd_stream_header false (get_d w o0) (d_format (get_d w o0) =? 0) (frame_fid f)) as [x u]. cbn [fst] in A, B, C.
@@ -501,7 +503,7 @@ Lemma select_multi : forall x fid, x_multi x -> fid_ok fid ->
   /\ (fid = 0 -> dd_kind (dd_select true (dd_with_last x fid) fid) = dd_kind x).
 Proof.
   intros x fid (Hu & l & j & Hs & H0 & H1 & H2 & Hk & Hj) Hf.
-  assert (Hh : dd_hasdict (dd_with_last x fid) = true) by (unfold dd_hasdict; cbn [dd_with_last dd_kind]; rewrite Hk; reflexivity).
+  assert (Hh : dd_selectable (dd_with_last x fid) = true) by (unfold dd_selectable; cbn [dd_with_last dd_kind dd_uses]; rewrite Hk, Hu; reflexivity).
   unfold dd_select. rewrite Hh. cbn [dd_with_last dd_set]. rewrite Hs. cbn [andb].
   destruct Hf as [-> | [-> | ->]].
   - rewrite H0. split; [|split]; [|intro H; contradiction H; reflexivity|intros _; reflexivity].
@@ -536,7 +538,7 @@ Proof.
   assert (Hf : f = 0 \/ f = 1 \/ f = 2) by (apply Hfs; left; reflexivity).
   unfold dd_oneshot_frame.
   destruct (select_multi x (frame_fid f) Hx (frame_fid_ok f)) as (A & B & C).
-  pose proof Hx as (Hu & l & j0 & Hs & H0 & H1 & H2 & Hk & Hj). rewrite Hs. unfold dd_hasdict. rewrite Hk. cbn [andb negb].
+  pose proof Hx as (Hu & l & j0 & Hs & H0 & H1 & H2 & Hk & Hj). rewrite Hs. unfold dd_preselectable, dd_selectable. rewrite Hk, Hu. cbn [andb negb Z.eqb].
   destruct Hf as [-> | [-> | ->]]; cbn [frame_fid Z.eqb Pos.eqb orb]; rewrite ?H0, ?H1, ?H2; cbn [dkind_matches Z.eqb Pos.eqb andb orb];
     apply IH; try exact A; intros g Hg; apply Hfs; right; exact Hg.
 Qed.
@@ -608,9 +610,12 @@ Proof.
     destruct (stream_header_multi _ false 0 Hh (or_introl eq_refl)) as (A & _). apply d_multi_intro; assumption.
   - unfold dctx_frame, dctx_frame_gen.
     destruct (stream_header_multi _ true 0 Hh (or_introl eq_refl)) as (A & _). apply d_multi_intro; assumption.
-  - unfold dctx_fx, dctx_fx_gen.
+  - unfold dctx_fx, dctx_fx_gen. cbv zeta.
     assert (Hk : fid_ok (if k =? 4 then 1 else 0)) by (unfold fid_ok; destruct (k =? 4); auto).
-    destruct (stream_header_multi _ (d_format (get_d w o0) =? (if k =? 1 then 1 else 0)) _ Hh Hk) as (A & _). apply d_multi_intro; assumption.
+    destruct (_ && _ && _).
+    + apply d_multi_intro; try assumption. unfold dd_fx_pre, dd_stale_select. rewrite Hm. cbn [Z.eqb Pos.eqb].
+      exact (proj1 (select_multi _ _ Hx Hk)).
+    + destruct (stream_header_multi _ (d_format (get_d w o0) =? (if k =? 1 then 1 else 0)) _ Hh Hk) as (A & _). apply d_multi_intro; assumption.
   - revert E. unfold dctx_dec_stream, dctx_dec_stream_gen.
     destruct (stream_header_multi _ (d_format (get_d w o0) =? 0) (frame_fid f) Hh (frame_fid_ok f)) as (A & _).
     destruct (dd_stream_header false (get_d w o0) (d_format (get_d w o0) =? 0) (frame_fid f)) as [x u]. cbn [fst] in A.
@@ -652,10 +657,14 @@ Qed.
 (* ---- the two repaired findings, as refutations on the code-as-it-was variants *)
 (* F29 (fixed by a24560c): selection by the dictID of the PREVIOUS frame.  refMultiple = 1, refDDict(1), a frame of
    dictionary 1 decoded, loadDictionary(2): the frame of dictionary 2 is refused, although it decodes in the current tree *)
+(* round 3: since the selection only replaces a referenced DDict (fix d0ddbff), the scenario that shows the old defect in the model
+   ends with DDict 2 referenced while the parameter is off (so that it is not in the set), then the parameter on again *)
+Definition f29_tail (d : dctx) : dctx :=
+  fst (dctx_set (fst (dctx_refddict (fst (dctx_set d z_ZSTD_d_refMultipleDDicts 0)) 2)) z_ZSTD_d_refMultipleDDicts 1).
 Definition f29_ctx : dctx :=
-  fst (dctx_load (fst (dctx_dec_stream_gen true (fst (dctx_refddict (fst (dctx_set (dctx_new false) z_ZSTD_d_refMultipleDDicts 1)) 1)) 1)) 2).
+  f29_tail (fst (dctx_dec_stream_gen true (fst (dctx_refddict (fst (dctx_set (dctx_new false) z_ZSTD_d_refMultipleDDicts 1)) 1)) 1)).
 Definition f29_ctx_now : dctx :=
-  fst (dctx_load (fst (dctx_dec_stream (fst (dctx_refddict (fst (dctx_set (dctx_new false) z_ZSTD_d_refMultipleDDicts 1)) 1)) 1)) 2).
+  f29_tail (fst (dctx_dec_stream (fst (dctx_refddict (fst (dctx_set (dctx_new false) z_ZSTD_d_refMultipleDDicts 1)) 1)) 1)).
 Lemma stale_dictid_selection_refuted_l :
   snd (dctx_dec_stream_gen true f29_ctx 2) <> Ok /\ snd (dctx_dec_stream f29_ctx_now 2) = Ok.
 Proof. split; vm_compute; [discriminate | reflexivity]. Qed.
